@@ -22,13 +22,9 @@ for pid in ids:
         else:
             res = "infra"
         detail = ""
-        rp = re.search(r"replay=(\S+)", line)
-        if rp and os.path.exists(rp.group(1)):
-            try:
-                rj = json.load(open(rp.group(1)))
-                detail = (str(rj.get("case"))[:200] + " :: " + str(rj.get("detail"))[:300]) if rj.get("case") else json.dumps(rj.get("broken", [])[:2])[:500]
-            except Exception:
-                pass
+        m2 = re.search(r"^REPLAY: (.*)$", out, re.M)
+        if m2:
+            detail = m2.group(1)[:800]
         mp = os.path.join(d, "meta.json")
         try:
             meta = json.load(open(mp))
